@@ -65,7 +65,7 @@ def make_specs(ctx, purpose='c09'):
 
     def add(H, P, subset, **kw):
         s = dict(idx=len(specs), seed=ctx.seed, H=H, P=P, subset=list(subset), AB=False, shear=False, conformity=False,
-                 ranks=False, velbias=False, rsd=False, origin=False, ties=False, Nthread=1, f32=False, qmass=False)
+                 ranks=False, velbias=False, rsd=False, origin=False, ties=False, Nthread=1, f32=False, qmass=False, zevo=False, z=0.5)
         s.update(kw)
         specs.append(s)
 
@@ -87,6 +87,11 @@ def make_specs(ctx, purpose='c09'):
     for subset in SUBSETS:
         add(40, 160, subset, qmass=True, AB=True, shear=True, conformity=True, ranks=rng.random() < .5, velbias=True,
             rsd=rng.random() < .5, Nthread=rng.choice([1, 2, 3, 16]))
+    # one z-evolving HOD (z_pivot, logM_cut_pr, logM1_pr) applied at several redshifts by consecutive calls in the same
+    # process: the HOD values are identical from call to call, only params['z'] changes (anything remembered from the
+    # previous call — evolved mass scales, typed dicts — shows up here)
+    for zz in (0.5, 0.8, 0.8, 0.2, 1.1, 0.5):
+        add(17, 40, TRACERS, zevo=True, z=zz, AB=True, conformity=True, velbias=True, rsd=True, Nthread=rng.choice([1, 3, 16]))
     # degenerate sizes
     for (H, P) in sizes_small[:3]:
         for subset in (('LRG',), ('ELG', 'QSO'), TRACERS):
@@ -138,6 +143,9 @@ def _hod_params(spec, rng):
                Acent=pick(-0.3, 0.3) if ab else 0.0, Asat=pick(-0.3, 0.3) if ab else 0.0,
                Bcent=pick(-0.3, 0.3) if ab else 0.0, Bsat=pick(-0.3, 0.3) if ab else 0.0, ic=ic())
     allp = dict(LRG=LRG, ELG=ELG, QSO=QSO)
+    if spec.get('zevo'):
+        for t in allp.values():
+            t.update(z_pivot=0.5, logM_cut_pr=0.6, logM1_pr=-0.4)
     return {t: allp[t] for t in spec['subset']}
 
 
@@ -147,7 +155,8 @@ def build_case(spec):
     rng = np.random.default_rng([spec['seed'] % (2 ** 32), spec['idx'], 909])
     H, P = spec['H'], spec['P']
     L = 128.0
-    tracers = _hod_params(spec, rng)
+    # the z-evolving group shares ONE set of HOD values (drawn from a generator that does not depend on the case index)
+    tracers = _hod_params(spec, np.random.default_rng([spec['seed'] % (2 ** 32), 4242]) if spec.get('zevo') else rng)
     hpos = rng.uniform(-L / 2, L / 2, (H, 3))
     hd = dict(hpos=hpos, hvel=rng.normal(0, 300, (H, 3)), hmass=10 ** rng.uniform(12.0, 14.6, H),
               hid=(np.arange(H, dtype=np.int64) * 7 + 1000), hmultis=rng.choice([1.0, 1.0, 2.0], H),
@@ -173,7 +182,7 @@ def build_case(spec):
         pd['pshear'] = hd['hshear'][pinds].copy()
     for k in ('pranks', 'pranksv', 'pranksp', 'pranksr', 'pranksc'):
         pd[k] = rng.uniform(-1, 1, P) if spec['ranks'] else np.ones(P)
-    params = dict(z=0.5, velz2kms=float(rng.choice([64.0, 100.0, 137.5])), Lbox=L,
+    params = dict(z=float(spec.get('z', 0.5)), velz2kms=float(rng.choice([64.0, 100.0, 137.5])), Lbox=L,
                   origin=(np.array([-300.0, -250.0, -400.0]) + rng.uniform(-5, 5, 3)) if spec['origin'] else None,
                   Mpart=2.1e9, chunk=-1)
     case = dict(spec=spec, halo=hd, part=pd, tracers=tracers, params=params, enable_ranks=bool(spec['ranks']),
@@ -182,12 +191,26 @@ def build_case(spec):
     return case
 
 
+def evolved_tracers(case):
+    """The documented z-evolution of the mass scales: logM_cut and logM1 move by their `_pr` slopes times
+    Delta_a = 1/(1+z) - 1/(1+z_pivot) (no z_pivot: no evolution); everything else as configured."""
+    zz = float(case['params']['z'])
+    out = {}
+    for T, t in case['tracers'].items():
+        t = dict(t)
+        da = 1.0 / (1 + zz) - 1.0 / (1 + t.get('z_pivot', zz))
+        t['logM_cut'] = t['logM_cut'] + t.get('logM_cut_pr', 0.0) * da
+        t['logM1'] = t['logM1'] + t.get('logM1_pr', 0.0) * da
+        out[T] = t
+    return out
+
+
 def occupations(case):
     """Per-host mean occupations from the package's own functions, arguments as documented (assembly bias, shear,
     conformity variants).  Returns dict of float64 arrays."""
     import numpy as np
     from abacusnbody.hod import GRAND_HOD as G
-    hd, pd, tr = case['halo'], case['part'], case['tracers']
+    hd, pd, tr = case['halo'], case['part'], evolved_tracers(case)
     H, P = len(hd['hmass']), len(pd['phmass'])
     z = np.zeros
     hdel, hfen, hshe = hd.get('hdeltac', z(H)), hd.get('hfenv', z(H)), hd.get('hshear', z(H))
